@@ -92,6 +92,36 @@ def has_date_key(v) -> bool:
     return False
 
 
+def reinsert_nulls(v, tree):
+    """the parsed TOML tree with the keys of None-valued dataclass fields put back (value and tree walked in parallel)"""
+    if dataclasses.is_dataclass(v) and isinstance(tree, dict):
+        out = dict(tree)
+        for f in dataclasses.fields(v):
+            x = getattr(v, f.name)
+            if f.name in tree:
+                out[f.name] = reinsert_nulls(x, tree[f.name])
+            elif x is None:
+                out[f.name] = None
+        return out
+    if isinstance(v, dict) and isinstance(tree, dict) and len(v) == len(tree):
+        return {k2: reinsert_nulls(x, t2) for (k, x), (k2, t2) in zip(v.items(), tree.items())}
+    if isinstance(v, (list, tuple, set, frozenset)) and isinstance(tree, (list, tuple)) and len(v) == len(tree):
+        return [reinsert_nulls(x, t) for x, t in zip(v, tree)]
+    return tree
+
+
+def toml_counterfactual(entry: L.Entry, v) -> bool:
+    from mashumaro.codecs.basic import BasicDecoder
+    from mashumaro.mixins.toml import TOMLDialect
+    tree = reinsert_nulls(v, L.parse_doc("toml", entry.encode(v)))
+    if entry.kind in ("mixin", "mixin-str"):
+        w = entry.shape.from_toml(tree, decoder=L.ident, **entry.kw)
+    else:
+        dd = TOMLDialect.merge(entry.dialect) if entry.dialect is not None else TOMLDialect
+        w = BasicDecoder(entry.shape, default_dialect=dd).decode(tree)
+    return L.same(w, v)
+
+
 def _srcable(w) -> bool:
     try:
         L.vsrc(w)
@@ -196,11 +226,37 @@ def reaches_selfref(S: L.Schema, shp: L.T) -> bool:
     return bool({"selfopt", "selflist"} & L.kinds_deep(shp, S))
 
 
-def signature(S: L.Schema, F: str, kind: str, phase: str, observed: str, v, shp=None) -> dict:
+def reaches_selfref_by_name(S: L.Schema, shp: L.T) -> bool:
+    """the shape reaches a dataclass with a field that names its own class (forward reference, not typing.Self)"""
+    seen = set()
+
+    def walk(t):
+        if t.kind in ("selfopt", "selflist") and not (t.args and t.args[0]):
+            return True
+        if t.name and t.kind in ("dc", "nt", "td", "dbase") and t.name not in seen and t.name in S.classes:
+            seen.add(t.name)
+            if any(walk(ft) for _, ft, _ in S.classes[t.name].get("fields", [])):
+                return True
+        for a in t.args:
+            if isinstance(a, L.T) and walk(a):
+                return True
+            if isinstance(a, (list, tuple)) and any(isinstance(x, L.T) and walk(x) for x in a):
+                return True
+        return False
+    return walk(shp)
+
+
+def signature(S: L.Schema, F: str, kind: str, phase: str, observed: str, v, shp=None, counterfactual=None,
+              dialect_given=False) -> dict:
     sig = {"format": F, "entry": kind, "phase": phase, "kind": "other"}
     if kind in ("codec", "func") and phase in ("build", "encode", "decode") and shp is not None and reaches_selfref(S, shp) \
             and observed.startswith("AttributeError: type object 'attrs_") and "has no attribute '__mashumaro_" in observed:
         sig["kind"] = "codec-self-referencing-dataclass"
+        return sig
+    if shp is not None and F in ("orjson", "msgpack", "toml") and kind == "mixin" and dialect_given \
+            and "AttributeError" in observed and "has no attribute '__mashumaro_" in observed and "_dict_" in observed \
+            and reaches_selfref_by_name(S, shp):
+        sig["kind"] = "call-dialect-self-by-name-missing-format-method"
         return sig
     if shp is not None and F in ("orjson", "msgpack", "toml") and kind in ("mixin", "mixin-str") \
             and "dbase" in L.kinds_deep(shp, S) and phase != "composition":
@@ -214,17 +270,14 @@ def signature(S: L.Schema, F: str, kind: str, phase: str, observed: str, v, shp=
         sig["kind"] = "orjson-library-time-microseconds-5-digits"
     if F == "toml" and (phase in ("decode", "roundtrip") or phase_class == "decode-or-roundtrip"):
         hits = none_fields_without_none_default(S, v)
-        if hits:
-            # decode raised on a document from which a None-valued key without a None default was omitted.  The
-            # MissingField is not always visible in the exception chain (a union position swallows it and raises
-            # InvalidFieldValue / ValueError(<document>) `from None`; deep nesting truncates the chain), so any
-            # decode *exception* of these classes on such a value is attributed to the finding; wrong *values* and
-            # every value without such a field stay unattributed.
-            if phase != "roundtrip" and not phase.endswith("-doc") and \
-                    observed.split(":")[0] in ("MissingField", "InvalidFieldValue", "ValueError"):
-                sig["kind"] = "toml-omitted-none-field-without-none-default"
-            elif phase == "roundtrip" or (phase_class == "decode-or-roundtrip" and "Error" not in observed.split(":")[0]):
-                sig["kind"] = "toml-omitted-none-field-without-none-default"
+        if hits and counterfactual is not None:
+            # counterfactual: put the omitted None-valued keys back into the parsed document and decode that tree with
+            # the same (TOML-dialect) unpacker: if the original value comes back, the omission alone caused the failure
+            try:
+                if counterfactual():
+                    sig["kind"] = "toml-omitted-none-field-without-none-default"
+            except Exception:
+                pass
     return sig
 
 
@@ -251,9 +304,12 @@ def oracle(ctx: vlib.Ctx, n_schemas: int, n_values: int, focus: str | None = Non
         dialect_mode = rng.random() < 0.3
         S = L.Schema(rng, jsonkind, dialect_mode=dialect_mode)
         depth = rng.choice([1, 2, 2, 3])
-        if rng.random() < 0.14:
+        if dialect_mode and rng.random() < 0.35:
+            # a self-referencing root whose per-format methods may first be compiled under a call-time dialect
+            root = S.new_dc(depth, root=True, force_self=rng.choice([True, "name"]))
+        elif rng.random() < 0.14:
             # the root is a subclass (adding fields) of a self-referencing class
-            sb = S.new_dc(max(depth - 1, 1), force_self=True)
+            sb = S.new_dc(max(depth - 1, 1), force_self=rng.choice([True, True, "name"]))
             root = S.new_dc(depth, root=True, base=sb.name)
         else:
             root = S.new_dc(depth, root=True)
@@ -288,7 +344,7 @@ def oracle(ctx: vlib.Ctx, n_schemas: int, n_values: int, focus: str | None = Non
             elif wrap == "dict":
                 shapes.append((L.T("dict", L.T("str"), root), None))
             elif wrap == "opt":
-                shapes.append((L.T("opt", root), None))
+                shapes.append((L.T("opt", root, rng.choice([None, "annotated", "union"])), None))
             elif wrap == "tuple":
                 shapes.append((L.T("tuplefix", [root, L.T("int")]), None))
             else:
@@ -332,6 +388,10 @@ def oracle(ctx: vlib.Ctx, n_schemas: int, n_values: int, focus: str | None = Non
                                 specs.append(("codec", xd))
                             if on_root:
                                 specs.append(("mixin", xd))
+                        # the order in which the entry points are first used varies (methods are compiled on demand);
+                        # a codec spec stays ahead of the mixin spec it is compared with
+                        if rng.random() < 0.5:
+                            specs = [sp for sp in specs if sp[1]] + [sp for sp in specs if not sp[1]]
                         built = {}
                         for kind, xd in specs:
                             label = kind + ("+dialect" if xd else "")
@@ -382,7 +442,9 @@ def oracle(ctx: vlib.Ctx, n_schemas: int, n_values: int, focus: str | None = Non
                                 ctx.sample({"shape": shape_ann, "format": F, "entry": label, "dialect": xd, "value": L.vsrc(v)[:300]})
                             for phase, observed, expected in fails:
                                 nfail += 1
-                                sig = signature(S, F, kind, phase, observed, v, shp)
+                                sig = signature(S, F, kind, phase, observed, v, shp,
+                                                (lambda e_=entry, v_=v: toml_counterfactual(e_, v_)) if (F == "toml" and entry is not None) else None,
+                                                dialect_given=bool(xd))
                                 if xd:
                                     sig["dialect"] = xd
                                 ctx.hist("failures", f"{F}:{label}:{phase}:{sig['kind']}")
@@ -402,28 +464,59 @@ def oracle(ctx: vlib.Ctx, n_schemas: int, n_values: int, focus: str | None = Non
 # (M) correspondence: Format.v pack/unpack/norm/approx/representable vs implementation + libraries
 # ---------------------------------------------------------------------------
 
+def innermost_missing_field(e: BaseException):
+    """field name of the deepest MissingField in the exception chain (nested dataclasses wrap it)"""
+    hit, seen = None, 0
+    while e is not None and seen < 50:
+        if type(e).__name__ == "MissingField":
+            hit = e.field_name
+        e = e.__cause__ or e.__context__
+        seen += 1
+    return hit
+
+
 def correspondence_cases(ctx: vlib.Ctx, n_schemas: int, n_values: int):
     rng = ctx.rng
     cases, descr = [], []
+    fmt_dialects = {F: L.coq_format_dialect(F) for F in FORMATS}
     for si in range(n_schemas):
         jsonkind = rng.choice(["json", "orjson"])
-        # a third of the schemas enable ADD_DIALECT_SUPPORT and are driven with a call-time dialect that covers
-        # nothing: the model's prediction is unchanged (the format's own dialect must still apply)
-        dm = rng.random() < 0.35
+        # 40% of the schemas enable ADD_DIALECT_SUPPORT and are driven with a call-time dialect: one that covers
+        # nothing, or one that overrides a type some format dialect declares native (both directions)
+        # systematic part of the stream (one schema in four): a self-referencing root (by name / typing.Self / as a
+        # subclass adding fields), half of them first used with a call-time dialect - the first format call compiles
+        # the per-format methods on demand, with or without a dialect
+        sysk = si % 8 if si % 2 == 0 else None
+        dm = (sysk in (0, 2, 4)) if sysk is not None else rng.random() < 0.4
         S = L.Schema(rng, jsonkind, small=True, dialect_mode=dm)
-        root = S.new_dc(rng.choice([1, 2, 2, 3]), root=True)
+        if sysk in (0, 6):
+            root = S.new_dc(rng.choice([1, 2]), root=True, force_self="name")
+        elif sysk == 2:
+            root = S.new_dc(rng.choice([1, 2]), root=True, force_self=True)
+        elif sysk == 4 or rng.random() < 0.12:
+            sb = S.new_dc(1, force_self=rng.choice([True, "name"]))
+            root = S.new_dc(rng.choice([1, 2]), root=True, base=sb.name)
+        else:
+            root = S.new_dc(rng.choice([1, 2, 2, 3]), root=True)
         src = S.source()
         modname = f"c04_corr_{ctx.seed}_{si}"
         try:
             mod = L.load_module(src, modname)
             rootcls = mod.__dict__[root.name]
             tyc = L.coq_ty(root, S)
+            envc = L.coq_env(S)
+            xname = rng.choice(list(L.MODEL_USER_DIALECTS)) if dm else None
+            user = L.MODEL_USER_DIALECTS[xname] if dm else []
+            userc = "[" + "; ".join(f"({k}, EDict (Some {i}%nat) (Some {i}%nat))" for k, i, _ in user) + "]"
+            for kk in sorted(L.kinds_deep(root, S)):
+                ctx.hist("correspondence_type_kinds", kk)
             for vi in range(n_values):
                 v = L.gen_value(root, S, mod, rng)
-                tab, unrepr = [], {}
-                pvc = L.coq_pv(v, root, S, tab, unrepr)
+                tab, unrepr, utab = [], {}, []
+                pvc = L.coq_pv(v, S, tab, unrepr, utab, user)
                 tabc = "[" + "; ".join(f"({k}, {vlib.coq_str(p)}, {vlib.coq_str(t)})" for k, p, t in dict.fromkeys(tab)) + "]"
-                xd = mod.__dict__["XD_empty"] if dm else None
+                utabc = "[" + "; ".join(f"({u}%nat, {k}, {vlib.coq_str(p)}, {vlib.coq_str(t)})" for u, k, p, t in dict.fromkeys(utab)) + "]"
+                xd = mod.__dict__[xname] if dm else None
                 basic = v.to_dict(dialect=xd) if dm else v.to_dict()
                 for F in FORMATS:
                     if F in ("json", "orjson") and F != jsonkind:
@@ -434,6 +527,8 @@ def correspondence_cases(ctx: vlib.Ctx, n_schemas: int, n_values: int):
                     entry = L.Entry(F, "mixin", rootcls, dialect=xd)
                     nb = entry.native_tree(v)
                     why = L.outside_subset(F, v)
+                    if why == "sub-minute-utc-offset" and xname == "XD_datetime":
+                        why = L.outside_subset(F, v, skip_datetime_offsets=True)   # rendered as text by the caller's strategy
                     parsed, dec = "None", "DecOther"
                     if why is None:
                         doc = entry.encode(v)
@@ -442,15 +537,19 @@ def correspondence_cases(ctx: vlib.Ctx, n_schemas: int, n_values: int):
                             w = entry.decode(doc)
                             dec = "DecSame" if L.same(w, v) else "DecOther"
                         except Exception as e:
-                            if type(e).__name__ == "MissingField":
-                                dec = f"(DecMissing {vlib.coq_str(e.field_name)})"
+                            mf = innermost_missing_field(e)
+                            if mf is not None:
+                                dec = f"(DecMissing {vlib.coq_str(mf)})"
                     bad = "[" + "; ".join(f"({k}, {vlib.coq_str(p)})" for k, p in dict.fromkeys(unrepr.get(F, []))) + "]"
-                    cases.append("{| c_fmt := %s; c_ty := %s; c_val := %s; c_tab := %s; c_unrepr := %s; c_pack := %s; "
+                    fe, fo = fmt_dialects[F]
+                    cases.append("{| c_fmt := %s; c_env := %s; c_ty := %s; c_val := %s; c_tab := %s; c_utab := %s; c_user := %s; "
+                                 "c_fmt_entries := %s; c_fmt_omit := %s; c_unrepr := %s; c_pack := %s; "
                                  "c_basic := %s; c_insub := %s; c_parsed := %s; c_dec := %s |}" % (
-                                     L.FMT[F], tyc, pvc, tabc, bad, L.coq_bv(nb), L.coq_bv(basic),
+                                     L.FMT[F], envc, tyc, pvc, tabc, utabc, userc, fe, fo, bad, L.coq_bv(nb), L.coq_bv(basic),
                                      "true" if why is None else "false", parsed, dec))
-                    descr.append({"format": F, "src": src, "root": root.name, "value_src": L.vsrc(v), "outside": why, "dec": dec})
-                    ctx.hist("correspondence_formats", F + (":outside-subset" if why else "") + (":call-dialect" if dm else ""))
+                    descr.append({"format": F, "src": src, "root": root.name, "value_src": L.vsrc(v), "outside": why, "dec": dec,
+                                  "dialect": xname})
+                    ctx.hist("correspondence_formats", F + (":outside-subset" if why else "") + (f":{xname}" if dm else ""))
         except Exception as e:   # the implementation raised where the model is total: keep going, report
             ctx.hist("correspondence_errors", type(e).__name__)
             if not any(u["name"].startswith("correspondence: implementation raised") for u in ctx.unshown):
@@ -462,10 +561,10 @@ def correspondence_cases(ctx: vlib.Ctx, n_schemas: int, n_values: int):
 
 
 def correspondence(ctx: vlib.Ctx):
-    cases, descr = correspondence_cases(ctx, ctx.budget(40, 400), ctx.budget(3, 4))
+    cases, descr = correspondence_cases(ctx, ctx.budget(40, 300), ctx.budget(3, 4))
     name = "format-model-vs-impl-and-libraries"
-    bad, log = vlib.coq_bad_idx("c04_fmt", "Format FormatCases", "", "", cases, "case_ok", "fcase", shard=120,
-                                needs=["theories/Format.vo", "theories/FormatCases.vo"])
+    bad, log = vlib.coq_bad_idx("c04_fmt", "Fmt FmtCases", "", "", cases, "case_ok", "fcase", shard=100,
+                                needs=["theories/Fmt.vo", "theories/FmtCases.vo"])
     ctx.count(n=len(cases))
     if bad is None:
         ctx.correspondence(name, len(cases), -1, log)
@@ -525,6 +624,82 @@ def k11_validation(ctx: vlib.Ctx):
             ctx.not_shown("translation validation K11", str([descr[i] for i in bad[:6]]))
 
 
+def k40_validation(ctx: vlib.Ctx):
+    """(T) the translated skeleton of the codec wrapper against the module text the real code emits."""
+    name = "K40-codec-wrapper-skeleton-vs-emitted-code"
+    if not ctx.kernel_report.get("K40", {}).get("ok"):
+        ctx.correspondence(name, 0, -1, "kernel K40 not translated: " + str(ctx.kernel_report.get("K40", {}).get("error")))
+        return
+    import re
+    import typing
+    from mashumaro.codecs import _builder
+    from mashumaro.codecs.basic import BasicDecoder, BasicEncoder
+    src = "from dataclasses import dataclass\n@dataclass\nclass K16P:\n    a: int\n"
+    mod = L.load_module(src, "c04_k16_probe")
+    rec = []
+    orig = _builder.CodecCodeBuilder.compile
+
+    def spy(self):
+        rec.append(self.lines.as_text())
+        return orig(self)
+
+    def classify(text, direction):
+        obj = "decoder_obj" if direction == "decode" else "encoder_obj"
+        out, expr = [], None
+        for ln in text.splitlines():
+            t = ln.strip()
+            if not t:
+                continue
+            if t == f"def {direction}(value):":
+                out.append("IDef")
+            elif t == "value = decoder(value)":
+                out.append("IPre")
+            elif t.startswith("return encoder(") and t.endswith(")"):
+                out.append("IReturnPost"); expr = t[len("return encoder("):-1]
+            elif t.startswith("return "):
+                out.append("IReturnExpr"); expr = t[len("return "):]
+            elif t == f"setattr({obj}, '{direction}', {direction})":
+                out.append("IInstallDef")
+            elif re.fullmatch(rf"setattr\({obj}, '{direction}', [^ ]+\)", t):
+                out.append("IInstallDirect")
+            else:
+                out.append("IUnknown")
+        return out, expr
+
+    cases, descr = [], []
+    _builder.CodecCodeBuilder.compile = spy
+    try:
+        for direction, ctor, kwname in (("decode", BasicDecoder, "pre_decoder_func"), ("encode", BasicEncoder, "post_encoder_func")):
+            for shape in (mod.K16P, typing.List[int], typing.Optional[mod.K16P], int):
+                for codec in (None, L.ident):
+                    rec.clear()
+                    ctor(shape, **{kwname: codec})
+                    got, expr = classify(rec[-1], direction)
+                    if "IUnknown" in got:
+                        b_m = "false"
+                    elif got == ["IInstallDirect"]:
+                        b_m = "true"
+                    else:
+                        b_m = "true" if (expr is not None and _builder.CALL_EXPR.match(expr)) else "false"
+                    cases.append(f"({'true' if direction == 'decode' else 'false'}, {'true' if codec else 'false'}, {b_m}, [{'; '.join(g if g != 'IUnknown' else 'IDef; IDef; IDef; IDef; IDef; IDef' for g in got)}])")
+                    descr.append((direction, str(shape), bool(codec), b_m, got))
+    finally:
+        _builder.CodecCodeBuilder.compile = orig
+        L.unload_module("c04_k16_probe")
+    okf = ("fun (c: bool * bool * bool * list cinstr) => match c with (dec, b_codec, b_m, got) => "
+           "prog_eqb (if dec then decode_prog b_codec b_m else encode_prog b_codec b_m) got end")
+    bad, log = vlib.coq_bad_idx("c04_k40", "CodecWrap", "From VerifGen Require Import K40.", "", cases, okf,
+                                "bool * bool * bool * list cinstr", shard=400, needs=["theories/CodecWrapProofs.vo"])
+    ctx.count(n=len(cases))
+    if bad is None:
+        ctx.correspondence(name, len(cases), -1, log)
+        ctx.not_shown("translation validation K40", log)
+    else:
+        ctx.correspondence(name, len(cases), len(bad), str([descr[i] for i in bad[:6]]))
+        if bad:
+            ctx.not_shown("translation validation K40", str([descr[i] for i in bad[:6]]))
+
+
 def names_oracle(ctx: vlib.Ctx):
     """Direct check of the method-name clause on the real classes: one class carrying every format mixin
     gets one distinct generated method per (format, direction) and none is overwritten."""
@@ -570,8 +745,9 @@ def run(ctx: vlib.Ctx):
         "edge-biased conforming values x 5 formats x {mixin, mixin-str, codec object, one-shot function}; a case is "
         "distinct by (shape annotation, format, entry point, value source); values outside the format's representable "
         "subset (c04lib.outside_subset, counted under coverage.outside_subset) are skipped for that format only. "
-        "correspondence: small-grammar modules (scalars, bytes/bytearray, datetime-likes, UUID, Decimal, List, Dict[str,.], "
-        "Optional, nested dataclasses) x values x 4 mixin formats, model run by vm_compute")
+        "correspondence: model-grammar modules (scalars, bytes/bytearray, datetime-likes, UUID, Decimal, Any, List, Dict[str,.], "
+        "Optional, nested / inherited / self-referencing dataclasses incl. typing.Self, discriminated unions) x values x 4 mixin "
+        "formats x {no caller dialect, XD_empty, XD_bytes, XD_bytearray, XD_datetime at call time}, model run by vm_compute")
     ctx.assumptions += [
         "fmt_law (hypothesis of C04_roundtrip_partial / C04_doc_is_basic / C04_doc_exact): parse_F(ser_F(b)) = norm_F(b) "
         "for the third-party libraries json, orjson, yaml (CSafeLoader/CDumper), msgpack, tomli_w/tomllib, up to mapping "
@@ -583,28 +759,43 @@ def run(ctx: vlib.Ctx):
         "and on sampled type arguments)",
     ]
     ctx.trusted += [
-        "Format.v is a small model (scalars, text-rendered leaves, list, dict with str keys, Optional, nested records): "
-        "NamedTuple, TypedDict, unions, enums, sets, tuples, non-str keys, inheritance and the codec (non-mixin) entry "
-        "points are covered by the oracle only",
+        "Fmt.v models: class table with nested / inherited(flattened) / self-referencing dataclasses (by name and typing.Self), "
+        "discriminated unions (Annotated Discriminator, str tags), Literal tags, Any positions, lists, str-keyed mappings, "
+        "Optional, text-rendered leaves, the format dialects merged with a caller's dialect (both directions). NamedTuple, "
+        "TypedDict, plain unions, enums, sets, tuples, non-str keys, class-level discriminators / base-typed polymorphic "
+        "fields and the codec (non-mixin) entry points are covered by the oracle only",
         "the format libraries and the stdlib leaf codecs are oracles with assumed laws (hypotheses of the theorems)",
         "tools/kernels/k11_method_names.py: translator extension (f-strings over str, +=, str-subclass construction) "
         "and coq/theories/PyK_names.v",
     ]
-    ctx.theorems("props/C04_formats.vo", ["C04_roundtrip_partial", "C04_roundtrip_refuted", "C04_doc_is_basic", "C04_doc_exact"])
-    ctx.theorems("props/C04_names.vo", ["C04_method_names_injective", "C04_method_names_total"], kernels=["K11"])
-    ctx.checker_cmd = f"make -C {vlib.COQ} props/C04_formats.vo props/C04_names.vo (coqc 8.16.1, full .vo build)"
+    ctx.theorems("props/C04_formats.vo", ["C04_roundtrip_partial", "C04_roundtrip_refuted", "C04_format_dialects_coherent",
+                                          "C04_doc_is_basic", "C04_doc_exact"])
+    ctx.theorems("props/C04_names.vo", ["C04_method_names_injective", "C04_method_names_total",
+                                        "C04_method_table_no_overwrite"], kernels=["K11"])
+    ctx.theorems("props/C04_dialects.vo", ["C04_merge_strategies_is_model_clause", "C04_merge_keeps_format_omit_none"],
+                 kernels=["K2", "K13"])
+    ctx.theorems("props/C04_codec.vo", ["C04_codec_decode_is_unpack_after_predecoder",
+                                        "C04_codec_encode_is_postencoder_after_pack"], kernels=["K40"])
+    ctx.checker_cmd = (f"make -C {vlib.COQ} props/C04_formats.vo props/C04_names.vo props/C04_dialects.vo props/C04_codec.vo "
+                       "(coqc 8.16.1, full .vo build); thorough: coqchk -o on the four files")
     if not ctx.quick():     # second opinion on the compiled proofs
-        rc, log, _ = vlib.run(["timeout", "600", "coqchk", "-silent", "-Q", "theories", "Verif", "-Q", "gen", "VerifGen",
-                               "-Q", "props", "VerifProps", "VerifProps.C04_formats", "VerifProps.C04_names"],
-                              cwd=vlib.COQ, timeout=630)
-        ctx.obligation("coqchk VerifProps.C04_formats VerifProps.C04_names", rc == 0, log[-600:])
-        if rc != 0:
+        rc, log, _ = vlib.run(["timeout", "900", "coqchk", "-o", "-silent", "-Q", "theories", "Verif", "-Q", "gen", "VerifGen",
+                               "-Q", "props", "VerifProps", "VerifProps.C04_formats", "VerifProps.C04_names",
+                               "VerifProps.C04_dialects", "VerifProps.C04_codec"], cwd=vlib.COQ, timeout=930)
+        import re as _re
+        m = _re.search(r"\* Axioms:\s*(.*?)\n\s*\n", log, _re.S)
+        axioms = " ".join(m.group(1).split()) if m else "(summary not found)"
+        ok = rc == 0 and axioms == "<none>"
+        ctx.obligation("coqchk -o VerifProps.C04_formats C04_names C04_dialects C04_codec", ok, f"Axioms: {axioms} | " + log[-300:])
+        ctx.trusted.append(f"coqchk -o on the C04 props files: Axioms: {axioms}")
+        if not ok:
             ctx.not_shown("coqchk on the C04 props", log[-1000:])
     k11_validation(ctx)
+    k40_validation(ctx)
     correspondence(ctx)
     broken = bool(ctx.unshown)
     names_oracle(ctx)
-    n_s, n_v = ctx.budget(140, 800), ctx.budget(5, 8)
+    n_s, n_v = ctx.budget(140, 700), ctx.budget(5, 8)
     if broken:      # a proof obligation or the correspondence broke: search harder for a failing input
         n_s = ctx.budget(260, 3000)
     law_fail = oracle(ctx, n_s, n_v)
